@@ -263,7 +263,8 @@ def main(tier, seed):
             cg.pullback([ap.UTPM(y.copy()) for y in ybars]); second = numpy.array(fx.xbar.data, copy=True)
             after = node_snapshot(cg)
             cgf, fxf, fysf = fresh(ap, prog, ap.UTPM(x.copy()))
-            cgf.pushforward([ap.UTPM(x.copy())]); cgf.pullback([ap.UTPM(y.copy()) for y in ybars]); want = numpy.array(fxf.xbar.data, copy=True)
+            # reference: a graph RECORDED at this very point and swept at once (no replay involved)
+            cgf.pullback([ap.UTPM(y.copy()) for y in ybars]); want = numpy.array(fxf.xbar.data, copy=True)
         except Exception as e:
             rep.notes.append('kernel program %s raised %r (decided by C03/C05)' % (kname, e)); continue
         payload = dict(kind='history', prog=prog, case=meta, x=x.tolist(), ybar=[y.tolist() for y in ybars])
